@@ -128,6 +128,20 @@ SEval(node, env, st) ==
          IF r.sig # "ok" THEN r ELSE IF r.v.t # "u" THEN SFail(r.st, "type")
          ELSE IF IntOf(r.v) < 0 THEN SFail(r.st, "range")
          ELSE Lift(r.st, TxnScalar(env.ctx, IntOf(r.v) + 1, node.s))
+    [] k = "GtxnAS" ->     \* group transaction with a constant index, array field with a computed index
+         LET r == SEval(a[1], env, st) IN
+         IF r.sig # "ok" THEN r ELSE IF r.v.t # "u" THEN SFail(r.st, "type")
+         ELSE Lift(r.st, TxnArray(env.ctx, node.i[1] + 1, node.s, IntOf(r.v)))
+    [] k = "GtxnSA" ->     \* group transaction chosen by a computed index, array field with a constant index
+         LET r == SEval(a[1], env, st) IN
+         IF r.sig # "ok" THEN r ELSE IF r.v.t # "u" THEN SFail(r.st, "type")
+         ELSE IF IntOf(r.v) < 0 THEN SFail(r.st, "range")
+         ELSE Lift(r.st, TxnArray(env.ctx, IntOf(r.v) + 1, node.s, node.i[1]))
+    [] k = "GtxnSAS" ->    \* both computed: the group index is evaluated first
+         LET r == SEvalList(a, 1, env, st, <<>>) IN
+         IF r.sig # "ok" THEN r ELSE IF r.v[1].t # "u" \/ r.v[2].t # "u" THEN SFail(r.st, "type")
+         ELSE IF IntOf(r.v[1]) < 0 THEN SFail(r.st, "range")
+         ELSE Lift(r.st, TxnArray(env.ctx, IntOf(r.v[1]) + 1, node.s, IntOf(r.v[2])))
     [] k = "Global" -> SR(st, GlobalRead(env.ctx, node.s))
     [] k = "LsigArg" -> Lift(st, LsigArg(env.ctx, node.i[1]))
     [] k = "Op" ->         \* one operator applied to the operand values in written order
